@@ -307,8 +307,19 @@ def index_rules(chk, fi, s, key):
         for it, _i, _c in repo.items(ATTR):
             if it["k"] == "TypeAlias" and it["name"] == alias:
                 m = re.match(r"\[bool;(\d+)\]", it["ty"].replace(" ", ""))
-        ok = m is not None and idx.isdigit() and int(idx) < int(m.group(1))
-        chk.expect("R2", key, ok, f, s["line"], "constant slot outside the flag array", expected=f"< {m.group(1) if m else '?'}", found=idx)
+        n_ = int(m.group(1)) if m else None
+        if n_ is None:
+            # length written as CONST.len(): the number of elements of that constant array
+            for it, _i, _c in repo.items(ATTR):
+                if it["k"] == "TypeAlias" and it["name"] == alias:
+                    mm = re.match(r"\[bool;(\w+)\.len\(\)\]", it["ty"].replace(" ", ""))
+                    if mm:
+                        try:
+                            n_ = len(repo.const(ATTR, mm.group(1))["expr"]["elems"])
+                        except Exception:
+                            n_ = None
+        chk.shape("R2", key, n_ is not None and idx.isdigit() and int(idx) < n_, n_ is not None and idx.isdigit() and int(idx) >= n_, f, s["line"],
+                  what="constant slot outside the flag array", expected=f"< {n_ if n_ is not None else '?'}", found=idx)
         return True
     # indexing a flag array by an enum reference: total by the Index impl (exhaustive match is compiler-checked; slots checked above)
     if re.fullmatch(r"&?(\*?kind|Kind::\w+|MemberAttrType::\w+|TraitAttrType::\w+|ctx\.kind)", idx):
@@ -320,7 +331,7 @@ def index_rules(chk, fi, s, key):
     # position-bounded: idx bound by Some(idx) of CONST.iter().position(..), CONST same length as the array
     if idx == "idx":
         src = render(fi.body).replace(" ", "")
-        m = re.search(r"match(\w+)\.iter\(\)\.position\(", src)
+        m = re.search(r"(?:match|let\w+=)(\w+)\.iter\(\)\.position\(", src)
         ok = False
         if m:
             try:
@@ -331,12 +342,15 @@ def index_rules(chk, fi, s, key):
                 if arr:
                     for it, _i, _c in repo.items(ATTR):
                         if it["k"] == "TypeAlias" and it["name"] == arr.group(2):
-                            mm = re.match(r"\[bool;(\d+)\]", it["ty"].replace(" ", ""))
+                            ty_ = it["ty"].replace(" ", "")
+                            mm = re.match(r"\[bool;(\d+)\]", ty_)
                             alen = int(mm.group(1)) if mm else None
+                            if alen is None and re.fullmatch(r"\[bool;" + re.escape(m.group(1)) + r"\.len\(\)\]", ty_):
+                                alen = clen  # sized by the very constant the position is taken in
                 ok = alen is not None and clen == alen
             except Inconclusive:
                 ok = False
-        chk.expect("R2", key, ok, f, s["line"], "index from position() is not bounded by the array length", found=[base, idx])
+        chk.shape("R2", key, ok, False, f, s["line"], what="index from position() is not bounded by the array length", found=[base, idx])
         return True
     return False
 
